@@ -353,8 +353,6 @@ def replay(W, behaviour, observe_every=True):
         if n % 3 == 1 and held:
             # ... and the caller lets go of the twins it held (every third step): what the private key holds does not depend on them
             del held[:]
-            import gc
-            gc.collect()
         e = {'act': act, 'raised': raised}
         if raised:
             e['exc'] = (extra or {}).get('exc', '')
